@@ -7,48 +7,647 @@ fn w(n: u32) -> WorkerSpec {
     WorkerSpec::cpus(n)
 }
 
-pub fn by_name(name: &str) -> Option<Scenario> {
-    all(true).into_iter().chain(all(false)).find(|s| s.name == name)
+fn arr(ids: &[u32], cpus: u32) -> SubmitSpec {
+    SubmitSpec::array(ids, RqSpec::cpus(cpus))
 }
 
-/// Every scenario of a tier.
+fn sub(s: SubmitSpec) -> Req {
+    Req::Submit(s)
+}
+
+pub fn by_name(name: &str) -> Option<Scenario> {
+    all(false).into_iter().find(|s| s.name == name)
+}
+
+/// Every scenario of a tier (thorough ⊇ quick).
 pub fn all(quick: bool) -> Vec<Scenario> {
     let mut v = Vec::new();
     v.extend(life(quick));
+    v.extend(dag(quick));
+    v.extend(prefill(quick));
+    v.extend(redirect(quick));
+    v.extend(reject(quick));
+    v.extend(mn(quick));
+    v.extend(maxfails(quick));
+    v.extend(open(quick));
+    v.extend(crashlimit(quick));
+    v.extend(timelimit(quick));
+    v.extend(wait(quick));
+    v.extend(misc(quick));
     v
+}
+
+pub fn family(name: &str, quick: bool) -> Vec<Scenario> {
+    match name {
+        "life" => life(quick),
+        "dag" => dag(quick),
+        "prefill" => prefill(quick),
+        "redirect" => redirect(quick),
+        "reject" => reject(quick),
+        "mn" => mn(quick),
+        "maxfails" => maxfails(quick),
+        "open" => open(quick),
+        "crashlimit" => crashlimit(quick),
+        "timelimit" => timelimit(quick),
+        "wait" => wait(quick),
+        "misc" => misc(quick),
+        "journal" => journal(quick),
+        _ => vec![],
+    }
 }
 
 pub fn life(quick: bool) -> Vec<Scenario> {
     let mut v = vec![
-        Scenario::new(
-            "life-2t-1w",
-            vec![w(2)],
-            vec![vec![Req::Submit(SubmitSpec::array(&[0, 1], RqSpec::cpus(1)))]],
-        )
-        .budgets(0, 1, 0, 1),
+        Scenario::new("life-2t-1w", vec![w(2)], vec![vec![sub(arr(&[0, 1], 1))]]).budgets(0, 1, 0, 1),
         Scenario::new(
             "life-2t-1w-cancel",
             vec![w(2)],
-            vec![
-                vec![Req::Submit(SubmitSpec::array(&[0, 1], RqSpec::cpus(1)))],
-                vec![Req::Cancel(1), Req::Cancel(1)],
-            ],
+            vec![vec![sub(arr(&[0, 1], 1))], vec![Req::Cancel(1), Req::Cancel(1)]],
         ),
         Scenario::new(
             "life-2t-1w-kill",
             vec![w(1), w(1).spare()],
-            vec![vec![Req::Submit(SubmitSpec::array(&[0, 1], RqSpec::cpus(1)))]],
+            vec![vec![sub(arr(&[0, 1], 1))]],
         )
         .budgets(1, 0, 1, 2),
+        Scenario::new(
+            "life-2jobs-cancel-one",
+            vec![w(1)],
+            vec![vec![sub(arr(&[0], 1)), sub(arr(&[0], 1))], vec![Req::Cancel(1)]],
+        ),
+        Scenario::new("life-launchfail", vec![w(1)], vec![vec![sub(arr(&[0, 1], 1))]]).launch_fail(1, 0, 1),
+    ];
+    if !quick {
+        v.push(
+            Scenario::new("life-3t-2w-kill-err", vec![w(1), w(1)], vec![vec![sub(arr(&[0, 1, 2], 1))]])
+                .budgets(1, 1, 0, 2),
+        );
+        v.push(
+            Scenario::new(
+                "life-3t-1w-cancel-err",
+                vec![w(2)],
+                vec![vec![sub(arr(&[0, 1, 2], 1))], vec![Req::Cancel(1)]],
+            )
+            .budgets(0, 1, 0, 1),
+        );
+    }
+    v
+}
+
+pub fn dag(quick: bool) -> Vec<Scenario> {
+    let chain: &[(u32, &[u32])] = &[(0, &[]), (1, &[0]), (2, &[1])];
+    let diamond: &[(u32, &[u32])] = &[(0, &[]), (1, &[0]), (2, &[0]), (3, &[1, 2])];
+    let fork: &[(u32, &[u32])] = &[(0, &[]), (1, &[0]), (2, &[0])];
+    let two_roots: &[(u32, &[u32])] = &[(0, &[]), (1, &[]), (2, &[0]), (3, &[1])];
+    let join: &[(u32, &[u32])] = &[(0, &[]), (1, &[]), (2, &[0, 1])];
+    let mut v = vec![
+        Scenario::new("dag-chain", vec![w(1)], vec![vec![sub(SubmitSpec::graph(chain, RqSpec::cpus(1)))]])
+            .budgets(0, 1, 0, 1),
+        Scenario::new("dag-fork-err", vec![w(2)], vec![vec![sub(SubmitSpec::graph(fork, RqSpec::cpus(1)))]])
+            .budgets(0, 1, 0, 1),
+        Scenario::new("dag-join-err", vec![w(2)], vec![vec![sub(SubmitSpec::graph(join, RqSpec::cpus(1)))]])
+            .budgets(0, 1, 0, 1),
+        // Appendix A #17: d, c, a<-d, b<-c on 2 cpus
+        Scenario::new(
+            "dag-two-roots-err",
+            vec![w(2)],
+            vec![vec![sub(SubmitSpec::graph(two_roots, RqSpec::cpus(1)))]],
+        )
+        .budgets(0, 1, 0, 1),
+        Scenario::new(
+            "dag-two-roots-cancel",
+            vec![w(2)],
+            vec![vec![sub(SubmitSpec::graph(two_roots, RqSpec::cpus(1)))], vec![Req::Cancel(1)]],
+        ),
+    ];
+    if !quick {
+        v.push(
+            Scenario::new("dag-diamond-err", vec![w(2)], vec![vec![sub(SubmitSpec::graph(diamond, RqSpec::cpus(1)))]])
+                .budgets(0, 1, 0, 1),
+        );
+        v.push(
+            Scenario::new(
+                "dag-diamond-kill",
+                vec![w(1), w(1)],
+                vec![vec![sub(SubmitSpec::graph(diamond, RqSpec::cpus(1)))]],
+            )
+            .budgets(1, 0, 0, 1),
+        );
+        v.push(
+            Scenario::new(
+                "dag-chain-cancel",
+                vec![w(1)],
+                vec![vec![sub(SubmitSpec::graph(chain, RqSpec::cpus(1)))], vec![Req::Cancel(1)]],
+            )
+            .budgets(0, 1, 0, 1),
+        );
+    }
+    v
+}
+
+pub fn prefill(quick: bool) -> Vec<Scenario> {
+    let mut v = vec![
+        // reserve=1,max=1: 3 equal tasks on a 1-cpu worker: one assigned, one pre-sent, one waits
+        Scenario::new("prefill-3t", vec![w(1)], vec![vec![sub(arr(&[0, 1, 2], 1))]])
+            .prefill(1, 1)
+            .budgets(0, 1, 0, 1),
+        // cancel while a task is pre-sent (Appendix A #1)
+        Scenario::new(
+            "prefill-3t-cancel",
+            vec![w(1)],
+            vec![vec![sub(arr(&[0, 1, 2], 1))], vec![Req::Cancel(1)]],
+        )
+        .prefill(1, 1),
+        // a higher-priority submit disposes the prefill (retract without redirect; #2 #18)
+        Scenario::new(
+            "prefill-hiprio",
+            vec![w(1)],
+            vec![vec![sub(arr(&[0, 1, 2], 1))], vec![sub(arr(&[0], 1).prio(5))]],
+        )
+        .prefill(1, 1),
+        Scenario::new(
+            "prefill-hiprio-cancel",
+            vec![w(1)],
+            vec![vec![sub(arr(&[0, 1, 2], 1))], vec![sub(arr(&[0], 1).prio(5))], vec![Req::Cancel(1)]],
+        )
+        .prefill(1, 1)
+        .cap(150_000),
+        Scenario::new("prefill-3t-kill", vec![w(1), w(1).spare()], vec![vec![sub(arr(&[0, 1, 2], 1))]])
+            .prefill(1, 1)
+            .budgets(1, 0, 1, 2),
+        Scenario::new("prefill-launchfail", vec![w(1)], vec![vec![sub(arr(&[0, 1, 2], 1))]])
+            .prefill(1, 1)
+            .launch_fail(1, 1, 1),
     ];
     if !quick {
         v.push(
             Scenario::new(
-                "life-3t-2w-kill-err",
-                vec![w(1), w(1)],
-                vec![vec![Req::Submit(SubmitSpec::array(&[0, 1, 2], RqSpec::cpus(1)))]],
+                "prefill-hiprio-launchfail",
+                vec![w(1)],
+                vec![vec![sub(arr(&[0, 1, 2], 1))], vec![sub(arr(&[0], 1).prio(5))]],
             )
-            .budgets(1, 1, 0, 2),
+            .prefill(1, 1)
+            .launch_fail(1, 1, 1)
+            .launch_fail(1, 2, 1),
+        );
+        v.push(
+            Scenario::new("prefill-r0m2-4t", vec![w(1)], vec![vec![sub(arr(&[0, 1, 2, 3], 1))]])
+                .prefill(0, 2)
+                .budgets(0, 1, 0, 1),
+        );
+        v.push(
+            Scenario::new(
+                "prefill-hiprio-kill",
+                vec![w(1), w(1).spare()],
+                vec![vec![sub(arr(&[0, 1, 2], 1))], vec![sub(arr(&[0], 1).prio(5))]],
+            )
+            .prefill(1, 1)
+            .budgets(1, 0, 1, 2)
+            .cap(300_000),
+        );
+    }
+    v
+}
+
+pub fn redirect(quick: bool) -> Vec<Scenario> {
+    let mut v = vec![
+        // a second worker joins while tasks are pre-sent to the first: retract + redirect
+        Scenario::new("redirect-join", vec![w(1), w(1).spare()], vec![vec![sub(arr(&[0, 1, 2], 1))]])
+            .prefill(1, 1)
+            .budgets(0, 0, 1, 1),
+        Scenario::new(
+            "redirect-join-cancel",
+            vec![w(1), w(1).spare()],
+            vec![vec![sub(arr(&[0, 1, 2], 1))], vec![Req::Cancel(1)]],
+        )
+        .prefill(1, 1)
+        .budgets(0, 0, 1, 1)
+        .cap(200_000),
+    ];
+    if !quick {
+        v.push(
+            Scenario::new("redirect-join-kill", vec![w(1), w(1).spare()], vec![vec![sub(arr(&[0, 1, 2], 1))]])
+                .prefill(1, 1)
+                .budgets(1, 0, 1, 2)
+                .cap(400_000),
+        );
+        v.push(
+            Scenario::new(
+                "redirect-join-launchfail",
+                vec![w(1), w(1).spare()],
+                vec![vec![sub(arr(&[0, 1, 2], 1))]],
+            )
+            .prefill(1, 1)
+            .budgets(0, 0, 1, 1)
+            .launch_fail(1, 1, 1)
+            .launch_fail(1, 2, 1),
+        );
+        // two request classes on one 2-cpu worker with prefill (Appendix A #22)
+        v.push(
+            Scenario::new(
+                "redirect-two-classes",
+                vec![w(2)],
+                vec![vec![sub(arr(&[0, 1, 2], 2))], vec![sub(arr(&[0], 1).prio(5))]],
+            )
+            .prefill(1, 1)
+            .cap(300_000),
+        );
+    }
+    v
+}
+
+pub fn reject(quick: bool) -> Vec<Scenario> {
+    let groups = WorkerSpec::cpu_groups(&[2, 2]);
+    let mut v = vec![
+        // compact! 2 cpus on [2,2]: a 1-cpu task in each group blocks the strict request
+        Scenario::new(
+            "reject-compact-strict",
+            vec![groups.clone()],
+            vec![
+                vec![sub(arr(&[0, 1], 1))],
+                vec![sub(SubmitSpec::array(&[0], RqSpec::only("cpus", "compact!", 20_000)))],
+            ],
+        ),
+        // fractional gpus
+        Scenario::new(
+            "reject-fractions",
+            vec![w(2).with("gpus", 1)],
+            vec![vec![sub(SubmitSpec::array(
+                &[0, 1, 2],
+                RqSpec::cpus(1).entry("gpus", "compact", 5_000),
+            ))]],
+        )
+        .budgets(0, 1, 0, 1),
+    ];
+    if !quick {
+        v.push(
+            Scenario::new(
+                "reject-variants",
+                vec![w(2).with("gpus", 1)],
+                vec![vec![sub(
+                    SubmitSpec::array(&[0, 1], RqSpec::cpus(1)).variants(vec![
+                        RqSpec::cpus(1).entry("gpus", "compact", 10_000),
+                        RqSpec::cpus(2),
+                    ]),
+                )]],
+            )
+            .budgets(0, 1, 0, 1),
+        );
+        v.push(Scenario::new(
+            "reject-all-policy",
+            vec![groups.clone()],
+            vec![vec![sub(arr(&[0], 1))], vec![sub(SubmitSpec::array(&[0, 1], RqSpec::only("cpus", "all", 0)))]],
+        ));
+        v.push(
+            Scenario::new(
+                "reject-tight-strict-prefill",
+                vec![WorkerSpec::cpu_groups(&[2, 2])],
+                vec![
+                    vec![sub(arr(&[0, 1], 1))],
+                    vec![sub(SubmitSpec::array(&[0, 1, 2], RqSpec::only("cpus", "tight!", 20_000)))],
+                ],
+            )
+            .prefill(1, 1)
+            .cap(300_000),
+        );
+    }
+    v
+}
+
+pub fn mn(quick: bool) -> Vec<Scenario> {
+    let mut v = vec![
+        Scenario::new(
+            "mn-2n",
+            vec![w(1), w(1)],
+            vec![vec![sub(SubmitSpec::array(&[0], RqSpec::nodes(2)))]],
+        )
+        .budgets(1, 1, 0, 1)
+        .kill_reasons(&["ConnectionLost", "Stopped"]),
+        Scenario::new(
+            "mn-2n-cancel",
+            vec![w(1), w(1)],
+            vec![vec![sub(SubmitSpec::array(&[0], RqSpec::nodes(2)))], vec![Req::Cancel(1)]],
+        ),
+        Scenario::new(
+            "mn-2n-plus-sn",
+            vec![w(1), w(1)],
+            vec![vec![sub(SubmitSpec::array(&[0], RqSpec::nodes(2)))], vec![sub(arr(&[0], 1))]],
+        )
+        .budgets(0, 1, 0, 1),
+    ];
+    if !quick {
+        v.push(
+            Scenario::new(
+                "mn-2n-groups-interleaved",
+                vec![w(1).group("a"), w(1).group("b"), w(1).group("a"), w(1).group("b")],
+                vec![vec![sub(SubmitSpec::array(&[0, 1], RqSpec::nodes(2)))]],
+            )
+            .budgets(1, 0, 0, 1),
+        );
+        v.push(
+            Scenario::new(
+                "mn-2n-kill-join",
+                vec![w(1), w(1), w(1).spare()],
+                vec![vec![sub(SubmitSpec::array(&[0], RqSpec::nodes(2)).crash_limit("1"))]],
+            )
+            .budgets(2, 0, 1, 3)
+            .kill_reasons(&["ConnectionLost"]),
+        );
+        v.push(
+            Scenario::new(
+                "mn-lifetime",
+                vec![w(1).time_limit(100), w(1)],
+                vec![vec![sub(SubmitSpec::array(&[0], RqSpec::nodes(2).min_time(200)))]],
+            ),
+        );
+    }
+    v
+}
+
+pub fn maxfails(quick: bool) -> Vec<Scenario> {
+    let mut v = vec![
+        Scenario::new("maxfails-0-3t", vec![w(2)], vec![vec![sub(arr(&[0, 1, 2], 1).max_fails(0))]])
+            .budgets(0, 1, 0, 1),
+        Scenario::new("maxfails-1-3t", vec![w(2)], vec![vec![sub(arr(&[0, 1, 2], 1).max_fails(1))]])
+            .budgets(0, 2, 0, 2),
+        Scenario::new("maxfails-0-launchfail", vec![w(2)], vec![vec![sub(arr(&[0, 1, 2], 1).max_fails(0))]])
+            .launch_fail(1, 1, 1),
+        Scenario::new(
+            "maxfails-0-crashlimit",
+            vec![w(1), w(1)],
+            vec![vec![sub(arr(&[0, 1], 1).max_fails(0).crash_limit("1"))]],
+        )
+        .budgets(1, 0, 0, 1),
+    ];
+    if !quick {
+        v.push(
+            Scenario::new("maxfails-0-prefill", vec![w(1)], vec![vec![sub(arr(&[0, 1, 2], 1).max_fails(0))]])
+                .prefill(1, 1)
+                .budgets(0, 1, 0, 1),
+        );
+        let fork: &[(u32, &[u32])] = &[(0, &[]), (1, &[0]), (2, &[]), (3, &[])];
+        v.push(
+            Scenario::new(
+                "maxfails-1-dag",
+                vec![w(2)],
+                vec![vec![sub(SubmitSpec::graph(fork, RqSpec::cpus(1)).max_fails(1))]],
+            )
+            .budgets(0, 2, 0, 2),
+        );
+    }
+    v
+}
+
+pub fn open(quick: bool) -> Vec<Scenario> {
+    let mut v = vec![
+        Scenario::new(
+            "open-auto-ids",
+            vec![w(1)],
+            vec![vec![
+                Req::OpenJob { max_fails: None },
+                sub(arr(&[], 1).into_job(1)),
+                sub(arr(&[], 1).into_job(1)),
+                Req::CloseJob(1),
+                Req::JobDetail(1),
+            ]],
+        ),
+        // Appendix A #8: auto ids with entries into an open job that already has tasks
+        Scenario::new(
+            "open-entries",
+            vec![w(1)],
+            vec![vec![
+                Req::OpenJob { max_fails: None },
+                sub(arr(&[], 1).into_job(1)),
+                sub(arr(&[], 1).entries(2).into_job(1)),
+                Req::CloseJob(1),
+                Req::JobDetail(1),
+            ]],
+        ),
+        Scenario::new(
+            "open-rejections",
+            vec![w(1)],
+            vec![vec![
+                Req::OpenJob { max_fails: None },
+                sub(arr(&[0, 1], 1).into_job(1)),
+                sub(arr(&[1], 1).into_job(1)),
+                sub(arr(&[5], 1).into_job(7)),
+                Req::CloseJob(1),
+                sub(arr(&[9], 1).into_job(1)),
+                Req::CloseJob(1),
+                Req::CloseJob(9),
+                Req::Forget(1),
+                Req::JobInfo,
+            ]],
+        ),
+        // dependencies on tasks of earlier submits (Appendix A #9)
+        Scenario::new(
+            "open-deps-on-earlier",
+            vec![w(1)],
+            vec![
+                vec![
+                    Req::OpenJob { max_fails: None },
+                    sub(SubmitSpec::graph(&[(0, &[])], RqSpec::cpus(1)).into_job(1)),
+                ],
+                vec![sub(SubmitSpec::graph(&[(1, &[0])], RqSpec::cpus(1)).into_job(1)), Req::CloseJob(1)],
+            ],
+        )
+        .budgets(0, 1, 0, 1),
+        // Appendix A #21: empty entries
+        Scenario::new(
+            "open-empty-entries",
+            vec![w(1)],
+            vec![vec![sub(arr(&[], 1).entries(0)), Req::JobInfo]],
+        ),
+    ];
+    if !quick {
+        v.push(
+            Scenario::new(
+                "open-two-clients",
+                vec![w(1)],
+                vec![
+                    vec![Req::OpenJob { max_fails: None }, sub(arr(&[], 1).into_job(1)), Req::CloseJob(1)],
+                    vec![sub(arr(&[], 1).into_job(1)), Req::Cancel(1), Req::JobDetail(1)],
+                ],
+            )
+            .budgets(0, 1, 0, 1)
+            .cap(300_000),
+        );
+        v.push(Scenario::new(
+            "open-graph-invalid",
+            vec![w(1)],
+            vec![vec![
+                Req::OpenJob { max_fails: None },
+                sub(SubmitSpec::graph(&[(0, &[]), (1, &[0])], RqSpec::cpus(1)).into_job(1)),
+                sub(SubmitSpec::graph(&[(2, &[7])], RqSpec::cpus(1)).into_job(1)),
+                sub(SubmitSpec::graph(&[(3, &[3])], RqSpec::cpus(1)).into_job(1)),
+                sub(SubmitSpec::graph(&[(4, &[]), (4, &[])], RqSpec::cpus(1)).into_job(1)),
+                sub(SubmitSpec::graph(&[(5, &[1])], RqSpec::cpus(1)).into_job(1)),
+                Req::CloseJob(1),
+            ]],
+        ));
+    }
+    v
+}
+
+pub fn crashlimit(quick: bool) -> Vec<Scenario> {
+    let reasons = &["ConnectionLost", "HeartbeatLost", "Stopped", "IdleTimeout", "TimeLimitReached"];
+    let mut v = Vec::new();
+    for limit in ["never", "1", "2", "unlimited"] {
+        if quick && limit == "unlimited" {
+            continue;
+        }
+        v.push(
+            Scenario::new(
+                &format!("crashlimit-{limit}"),
+                vec![w(1), w(1).spare(), w(1).spare()],
+                vec![vec![sub(arr(&[0], 1).crash_limit(limit))]],
+            )
+            .budgets(2, 0, 2, if quick { 3 } else { 4 })
+            .kill_reasons(if quick { &["ConnectionLost", "Stopped"] } else { reasons }),
+        );
+    }
+    v
+}
+
+pub fn timelimit(_quick: bool) -> Vec<Scenario> {
+    vec![
+        Scenario::new(
+            "timelimit-1",
+            vec![w(2)],
+            vec![vec![sub(arr(&[0], 1).time_limit(10))], vec![sub(arr(&[0], 1))]],
+        ),
+        Scenario::new(
+            "timelimit-cancel",
+            vec![w(1)],
+            vec![vec![sub(arr(&[0], 1).time_limit(10))], vec![Req::Cancel(1)]],
+        ),
+    ]
+}
+
+pub fn wait(_quick: bool) -> Vec<Scenario> {
+    vec![
+        Scenario::new("wait-nojournal", vec![w(1)], vec![vec![sub(arr(&[0], 1).wait())]]),
+        // Appendix A #10: journal flush await between submit and listener registration
+        Scenario::new("wait-journal", vec![w(1)], vec![vec![sub(arr(&[0], 1).wait())]]).journal(),
+    ]
+}
+
+pub fn misc(quick: bool) -> Vec<Scenario> {
+    let mut v = vec![
+        // streaming task: stop receiver dropped during the final flush (Appendix A #23)
+        Scenario::new(
+            "stream-cancel",
+            vec![w(1)],
+            vec![vec![sub(arr(&[0], 1).stream())], vec![Req::Cancel(1)]],
+        ),
+        Scenario::new(
+            "client-queries",
+            vec![w(1)],
+            vec![
+                vec![sub(arr(&[0], 1))],
+                vec![
+                    Req::JobInfoLast(3),
+                    Req::JobDetail(9),
+                    Req::Cancel(9),
+                    Req::CloseJob(9),
+                    Req::Forget(9),
+                    Req::Explain { job: 1, task: 0 },
+                    Req::WorkerList,
+                    Req::WorkerInfo(1),
+                    Req::CancelAll,
+                    Req::Forget(1),
+                ],
+            ],
+        ),
+    ];
+    if !quick {
+        v.push(Scenario::new(
+            "stream-timelimit",
+            vec![w(1)],
+            vec![vec![sub(arr(&[0], 1).stream().time_limit(10))]],
+        ));
+    }
+    v
+}
+
+pub fn journal(quick: bool) -> Vec<Scenario> {
+    let chain: &[(u32, &[u32])] = &[(0, &[]), (1, &[0])];
+    let mut v = vec![
+        Scenario::new("journal-life", vec![w(1)], vec![vec![sub(arr(&[0, 1], 1))]])
+            .journal()
+            .budgets(0, 1, 0, 1),
+        Scenario::new("journal-launchfail", vec![w(1)], vec![vec![sub(arr(&[0, 1], 1))]])
+            .journal()
+            .launch_fail(1, 0, 1),
+        Scenario::new(
+            "journal-cancel",
+            vec![w(1)],
+            vec![vec![sub(arr(&[0, 1], 1))], vec![Req::Cancel(1)]],
+        )
+        .journal(),
+        Scenario::new(
+            "journal-dag",
+            vec![w(1)],
+            vec![vec![sub(SubmitSpec::graph(chain, RqSpec::cpus(1)))]],
+        )
+        .journal()
+        .budgets(0, 1, 0, 1),
+        Scenario::new(
+            "journal-kill",
+            vec![w(1), w(1).spare()],
+            vec![vec![sub(arr(&[0], 1).crash_limit("2"))]],
+        )
+        .journal()
+        .budgets(1, 0, 1, 2),
+        Scenario::new(
+            "journal-open",
+            vec![w(1)],
+            vec![vec![
+                Req::OpenJob { max_fails: None },
+                sub(arr(&[], 1).into_job(1)),
+                sub(arr(&[], 1).into_job(1)),
+                Req::CloseJob(1),
+            ]],
+        )
+        .journal(),
+        Scenario::new(
+            "journal-prune",
+            vec![w(1), w(1).spare()],
+            vec![vec![sub(arr(&[0], 1)), sub(arr(&[0], 1)), Req::Prune], vec![Req::Cancel(2)]],
+        )
+        .journal()
+        .budgets(1, 0, 0, 1)
+        .cap(150_000),
+    ];
+    if !quick {
+        v.push(
+            Scenario::new(
+                "journal-2jobs-maxfails",
+                vec![w(2)],
+                vec![vec![sub(arr(&[0, 1, 2], 1).max_fails(0)), sub(arr(&[0], 1))]],
+            )
+            .journal()
+            .budgets(0, 1, 0, 1)
+            .cap(300_000),
+        );
+        v.push(
+            Scenario::new(
+                "journal-kill2",
+                vec![w(1), w(1).spare(), w(1).spare()],
+                vec![vec![sub(arr(&[0], 1).crash_limit("unlimited")), Req::Prune]],
+            )
+            .journal()
+            .budgets(2, 0, 2, 4)
+            .cap(300_000),
+        );
+        v.push(
+            Scenario::new(
+                "journal-mn",
+                vec![w(1), w(1)],
+                vec![vec![sub(SubmitSpec::array(&[0], RqSpec::nodes(2)).crash_limit("2"))]],
+            )
+            .journal()
+            .budgets(1, 0, 0, 1),
         );
     }
     v
